@@ -280,3 +280,18 @@ def private_name_programs():
         ('private/nested-class', "class OuterClass:\n    __outer_private = 1\n    class InnerClass:\n        __inner_private = 2\n        def read_value(self):\n            return self.__inner_private\nprint(OuterClass.InnerClass().read_value())\n"),
         ('private/function-local-class', "def make_class():\n    class LocalClass:\n        __slot_value = 7\n        def read_value(self):\n            return self.__slot_value\n    return LocalClass\nprint(make_class()().read_value(), make_class()._LocalClass__slot_value)\n"),
     ]
+
+
+def export_programs():
+    """modules that declare their interface (__all__ in its various spellings) and contain literals worth hoisting, builtins
+    worth aliasing and names worth renaming at module level: every name the minifier adds must stay out of the interface"""
+    lit = "'a literal that is repeated'"
+    out = []
+    alls = ["__all__ = ['exported_function', 'EXPORTED_VALUE']", "__all__ = ['exported_function']\n__all__ += ['EXPORTED_VALUE']",
+            "__all__: list = ['exported_function', 'EXPORTED_VALUE']", "__all__ = ('exported_function', 'EXPORTED_VALUE')", "__all__ = []", '']
+    for a in alls:
+        body = ('%s\nEXPORTED_VALUE = %s\nhidden_value = [%s, %s, %s]\n'
+                'def exported_function(first_argument):\n    local_value = len(first_argument) + len(hidden_value) + len(EXPORTED_VALUE)\n    return local_value, %s, print, print\n'
+                'def hidden_function():\n    return exported_function(hidden_value), %s\n') % (a, lit, lit, lit, lit, lit, lit)
+        out.append(('export/%d' % len(out), body))
+    return out
